@@ -340,17 +340,31 @@ async fn build_stage(args: &Args, rep: &mut Reporter, rng: &mut Rng, base: &Path
         Ok(r) => anyhow::bail!("the freshly trusted second device was answered {} before revocation", r.status),
         Err(e) => anyhow::bail!("no answer for the second device before revocation: {e:?}"),
     }
+    // the revocation reaches the server in one of several shapes (the trusted set is the
+    // replay of the whole device log, whatever the shape of the patch that carried the events)
+    let shape = ["lone_revoke", "retrust_then_revoke_in_one_patch", "revoke_trust_revoke_in_one_patch", "revoke_with_unrelated_trust"][(args.shard + args.seed as usize) % 4];
     {
         let mut acc = a.account.lock().await;
-        acc.revoke_device(&revoked_pk).await?;
+        let trust = || DeviceEvent::Trust(TrustedDevice::new(revoked_pk, None, None));
+        match shape {
+            "lone_revoke" => acc.revoke_device(&revoked_pk).await?,
+            "retrust_then_revoke_in_one_patch" => acc.patch_devices_unchecked(&[trust(), DeviceEvent::Revoke(revoked_pk)]).await?,
+            "revoke_trust_revoke_in_one_patch" => acc.patch_devices_unchecked(&[DeviceEvent::Revoke(revoked_pk), trust(), DeviceEvent::Revoke(revoked_pk)]).await?,
+            _ => {
+                let other = http::fresh_signer();
+                let other_pk: sos_core::device::DevicePublicKey = other.verifying_key().as_bytes().into();
+                acc.patch_devices_unchecked(&[DeviceEvent::Trust(TrustedDevice::new(other_pk, None, None)), DeviceEvent::Revoke(revoked_pk)]).await?
+            }
+        }
     }
+    rep.count(&format!("revocation_shape:{shape}"), 1);
     a.sync().await.map_err(|e| anyhow::anyhow!("sync after revoking the second device: {e}"))?;
     let trusted = server.trusted_keys(&pa.account_id).await.unwrap_or_default();
     if trusted.contains(&hex::encode(revoked_pk.as_ref())) {
         rep.violation(
             "C11:revocation_synced:server_still_trusts_device",
-            "after the owner revoked a device and synced without error, the running server still lists the device key as trusted",
-            json!({"check": "c11", "seed": args.seed, "shard": args.shard, "server_backend": if server_db {"db"} else {"fs"}}),
+            &format!("after the owner revoked a device ({shape}) and synced without error, the running server still lists the device key as trusted"),
+            json!({"check": "c11", "seed": args.seed, "shard": args.shard, "revocation_shape": shape, "server_backend": if server_db {"db"} else {"fs"}}),
         );
     }
     rep.count("revocations_synced", 1);
